@@ -1151,7 +1151,7 @@ void lp_interval_pow(lp_interval_t* pow, const lp_interval_t* I, unsigned n) {
         // P = [0, max(a, b)^n]
         int a_point = lp_value_pow_approx(&I->a, n, 0, &result.a);
         int b_point = lp_value_pow_approx(&I->b, n, 0, &result.b);
-        if (lp_interval_endpoint_lt(&result.b, I->b_open, &result.a, I->a_open)) {
+        if (lp_interval_endpoint_lt(&result.b, !I->b_open, &result.a, !I->a_open)) {
           lp_value_swap(&result.b, &result.a);
           result.b_open = I->a_open || !a_point;
         } else {
@@ -1215,7 +1215,7 @@ void rational_interval_pow(lp_rational_interval_t* P, const lp_rational_interval
       rational_pow(&P->b, &I->b, n);
       if (sgn == 0) {
         // P = [0, max(a, b)^n]
-        if (rational_interval_endpoint_lt(&P->b, I->b_open, &P->a, I->a_open)) {
+        if (rational_interval_endpoint_lt(&P->b, !I->b_open, &P->a, !I->a_open)) {
           rational_swap(&P->b, &P->a);
           P->b_open = I->a_open;
         } else {
@@ -1273,7 +1273,7 @@ void dyadic_interval_pow(lp_dyadic_interval_t* P, const lp_dyadic_interval_t* I,
       dyadic_rational_pow(&P->b, &I->b, n);
       if (sgn == 0) {
         // P = [0, max(a, b)^n]
-        if (dyadic_interval_endpoint_lt(&P->b, I->b_open, &P->a, I->a_open)) {
+        if (dyadic_interval_endpoint_lt(&P->b, !I->b_open, &P->a, !I->a_open)) {
           dyadic_rational_swap(&P->b, &P->a);
           P->b_open = I->a_open;
         } else {
